@@ -216,10 +216,12 @@ func AsWriter(obj Object) (io.Writer, *Error) {
 
 func AsIterator(obj Object) (Iterator, *Error) {
 	switch obj := obj.(type) {
+	case Iterable:
+		// An object that is both (a channel) gives out an iterator of its own
+		// for every consumer instead of being shared by them
+		return obj.Iter(), nil
 	case Iterator:
 		return obj, nil
-	case Iterable:
-		return obj.Iter(), nil
 	default:
 		return nil, TypeErrorf("type error: expected an iterable object (%s given)", obj.Type())
 	}
